@@ -16,6 +16,8 @@ TEXTS = [
     'PEP[Oxidation][1.5]TID[Formula:C2H2O]^2E', '<[Carbamidomethyl]@C>PECTCIDE', '<[Dehydrated]@S>PESTS', '<13C>PEP[Phospho]TIDE', '<15N>PEPTIDE',
     '{Glycan:Hex}<[Carbamidomethyl]@C>[Acetyl]-PEC[Oxidation]TIDE-[Amidated]', '<[10]@N-Term>PEPTIDE', '<[10]@C-Term,E>PEPTIDE',
     '[Oxidation]?PEPTIDE', 'P(EP)[Oxidation]TIDE', 'PEPTIDE/2', 'PEP[Phospho]TIDE/2[+Na+,+H+]', '<D>PEPTIDE', '<18O>PEPTIDE', 'K', 'K[1.5]',
+    # a label together with a numeric global rule whose target occurs several times (the rule is expanded per residue before the labelled mass is taken)
+    '<13C><[+10]@P>PEPT[Phospho]IDE', '<13C><[+10]@P>PEPTIDEPP', '<15N><[-2.5]@E>EEPTIDE[Oxidation]E', '<13C><[+10]@P>PEPTIDE',
 ]
 
 
